@@ -138,6 +138,8 @@ type FuncSpec struct {
 	Pos      string
 	Bound    bool // set when matched to an SSA function
 	NoNil    []string
+	Bridges  []Update // ghost(params) = expr over the CURRENT ghost state at return: proved equal to the declared update, then usable
+	Hints    []Clause // proved at every return in the state BEFORE the ghost updates; introduces ground terms
 }
 
 type Axiom struct {
@@ -169,7 +171,7 @@ type tok struct {
 var keywords = map[string]bool{
 	"requires": true, "ensures": true, "modifies": true, "updates": true, "loop": true,
 	"func": true, "fun": true, "macro": true, "ghost": true, "axiom": true, "iface": true,
-	"trusted": true, "assume": true, "defaxiom": true, "uses": true, "inv": true, "dec": true, "nonnil": true, "typeinv": true,
+	"trusted": true, "assume": true, "defaxiom": true, "hint": true, "bridge": true, "uses": true, "inv": true, "dec": true, "nonnil": true, "typeinv": true,
 }
 
 func lex(src string, line0 int, file string) ([]tok, error) {
@@ -686,6 +688,10 @@ func (p *sparser) parseClauses(fs *FuncSpec) {
 			p.next()
 			lb := p.label()
 			fs.Ensures = append(fs.Ensures, Clause{E: p.expr(), Pos: pos, Name: lb})
+		case "hint":
+			p.next()
+			lb := p.label()
+			fs.Hints = append(fs.Hints, Clause{E: p.expr(), Pos: pos, Name: lb})
 		case "assume":
 			p.next()
 			fs.Assumes = append(fs.Assumes, Clause{E: p.expr(), Pos: pos})
@@ -728,7 +734,8 @@ func (p *sparser) parseClauses(fs *FuncSpec) {
 				}
 				break
 			}
-		case "updates":
+		case "updates", "bridge":
+			isBridge := t.s == "bridge"
 			p.next()
 			g := p.ident()
 			p.expectOp("(")
@@ -741,7 +748,11 @@ func (p *sparser) parseClauses(fs *FuncSpec) {
 			}
 			p.expectOp(")")
 			p.expectOp("=")
-			fs.Updates = append(fs.Updates, Update{Ghost: g, Params: ps, Body: p.expr(), Pos: pos})
+			if isBridge {
+				fs.Bridges = append(fs.Bridges, Update{Ghost: g, Params: ps, Body: p.expr(), Pos: pos})
+			} else {
+				fs.Updates = append(fs.Updates, Update{Ghost: g, Params: ps, Body: p.expr(), Pos: pos})
+			}
 		case "loop":
 			p.next()
 			n := p.next()
